@@ -202,7 +202,7 @@ def execute_order(case, t):
 def float_matrix_case(draw):
     n = draw(st.integers(1, 40))
     seed = draw(st.integers(0, 2 ** 32 - 1))
-    scale = draw(st.sampled_from([1e-300, 1e-8, 1.0, 1e8, 1e300]))
+    scale = draw(st.sampled_from([1e-300, 1e-8, 1.0, 1e8, 1e300, "subnormal"]))
     return {"n": n, "seed": seed, "scale": scale}
 
 
@@ -210,7 +210,12 @@ def execute_float(case, t):
     mc, _ = _mods()
     n = case["n"]
     rng = np.random.default_rng(case["seed"])
-    a = rng.uniform(-1, 1, size=(n, n)) * case["scale"]
+    if case["scale"] == "subnormal":
+        # small integer multiples of the smallest subnormal double (odd and even last bits)
+        a = rng.integers(-9, 10, size=(n, n)).astype(np.float64) * 5e-324
+        case = dict(case, scale=5e-324)
+    else:
+        a = rng.uniform(-1, 1, size=(n, n)) * case["scale"]
     sym = np.triu(a) + np.triu(a, 1).T
     back = mc.reinflate_matrix(mc.compress_matrix(sym))
     if back.shape != sym.shape or not np.array_equal(back, sym):
